@@ -11,7 +11,7 @@ from vlib.runner import Stage, derive_seed
 ID = "C06"
 RULE = ("Complete walk over the vocabulary of the tree under test: every locale code (205 languages + 299 regional) x "
         "NORMALIZE on/off x (a) every fixed relative phrase listed under exactly one vocabulary key, (b) every counted "
-        "pattern instantiated with n in {0,1,2,3,11,45,120} (quick: {1,2,11}) and with '1.5'/'1,5' where the pattern has the "
+        "pattern instantiated with n in {0,1,2,3,11,45,120,999,1234} (quick: {1,2,11,120,1234}) and with '1.5'/'1,5' where the pattern has the "
         "decimal group, kept when the instantiated phrase matches patterns of exactly one key of that locale and is not "
         "itself a vocabulary word. Oracle (differential): DateDataParser(languages=['en']) on the canonical key with the "
         "number substituted, under the same frozen reference time (month ends over-weighted) and settings; date_obj and "
@@ -161,7 +161,9 @@ def _ref(seed, *parts):
 
 
 def _walk(ctx):
-    ns = ["1", "2", "11"] if ctx.quick else ["0", "1", "2", "3", "11", "45", "120"]
+    # one-, two-, three- and four-digit counts in both tiers (rules keyed on the digit count of the number — year markers,
+    # thousands separators, clock-like groups — only show at three or four digits)
+    ns = ["1", "2", "11", "120", "1234"] if ctx.quick else ["0", "1", "2", "3", "11", "45", "120", "999", "1234"]
 
     def it(shard, nshards):
         # a language and its regional locales are walked in the same worker process (they share per-language caches),
